@@ -95,6 +95,9 @@ MUTANTS += [
     M("c03-r11-threshold-doubled", "C03", "C03.R11", BUF, "\tif buf.feeder.NumOutput() >= defs.BufferMaxNumChunksInMemory/2 {", "\tif buf.feeder.NumOutput() >= defs.BufferMaxNumChunksInMemory*2 {", "the window holds at most the limit: the spill never happens"),
     M("c03-r11-spill-only-when-queue-empty", "C03", "C03.R11", BUF, "\tif buf.feeder.NumOutput() >= defs.BufferMaxNumChunksInMemory/2 {", "\tif len(buf.inputChannel) == 0 && buf.feeder.NumOutput() >= defs.BufferMaxNumChunksInMemory/2 {", "backlog: the queue is non-empty exactly when the spill is needed"),
     B("c03-r11-benign-flipped-comparison", "C03", BUF, "\tif buf.feeder.NumOutput() >= defs.BufferMaxNumChunksInMemory/2 {", "\tif limit := defs.BufferMaxNumChunksInMemory / 2; limit <= buf.feeder.NumOutput() {"),
+    M("c03-r12-consumed-also-dropped", "C19", "C03.R12", CMAN, "func (man *chunkManager) OnChunkConsumed(chunk base.LogChunk) {\n\tman.operator.RemoveChunk(chunk)\n", "func (man *chunkManager) OnChunkConsumed(chunk base.LogChunk) {\n\tman.operator.RemoveChunk(chunk)\n\tman.operator.OnChunkDropped(chunk)\n", "every acknowledged chunk that had been spilled to disk: persistent_chunks drifts negative"),
+    M("c03-r12-remove-forgets-bytes", "C03", "C03.R12", COP, "\top.metrics.persistentChunks.Dec()\n\top.metrics.persistentChunkBytes.Sub(int64(len(chunk.Data)))\n}\n\nfunc (op *chunkOperator) OnChunkDropped", "\top.metrics.persistentChunks.Dec()\n}\n\nfunc (op *chunkOperator) OnChunkDropped", "a loaded saved chunk removed after ACK: byte gauge never goes down, quota reached with an empty directory"),
+    B("c03-r12-benign-bytes-first", "C03", COP, "\top.metrics.persistentChunks.Dec()\n\top.metrics.persistentChunkBytes.Sub(int64(len(chunk.Data)))\n}\n\nfunc (op *chunkOperator) OnChunkDropped", "\top.metrics.persistentChunkBytes.Sub(int64(len(chunk.Data)))\n\top.metrics.persistentChunks.Dec()\n}\n\nfunc (op *chunkOperator) OnChunkDropped"),
     # ---------------- C04
     M("c04-r1-revert-short-write", "C04", "C04.R1", FILES, "\twerr := writeAllToFD(fd, data)\n", "\t_, werr := unix.Write(fd, data)\n", "short write (file size limit / disk full): original defect D10"),
     M("c04-r1-ignore-close", "C04", "C04.R1", FILES, "\tif cerr := unix.Close(fd); werr == nil {\n\t\twerr = cerr\n\t}\n", "\tunix.Close(fd)\n", "delayed write error reported at close (NFS, quota)"),
@@ -226,6 +229,7 @@ TSWITCH = "transform/tswitch/tswitch.go"
 TTRUNC = "transform/ttruncate/ttruncate.go"
 TDROP = "transform/tdrop/tdrop.go"
 ALLOC = "base/logallocator.go"
+RFC = "transform/tparsetime/rfc3339.go"
 LCM = "util/localcachedmap/localcachedmap.go"
 LPCS = "base/logprocesscounterset.go"
 RUNESC = "rewrite/runescape/runescape.go"
@@ -247,12 +251,22 @@ MUTANTS += [
     M("c12-r2-use-after-release", "C12", "C12.R2", LPW, "\t\t\ticounter.CountRecordDrop(record)\n\t\t\tworker.deallocator.Release(record)\n", "\t\t\tworker.deallocator.Release(record)\n\t\t\ticounter.CountRecordDrop(record)\n", "dropped record recycled by a concurrent connection before its length is counted"),
     M("c12-r3-transient-map-key", "C12", "C12.R3", LCM, "\tlm.localMap[permanentMergedKey] = newLocalCache", "\tlm.localMap[util.StringFromBytes(tempMergedKey)] = newLocalCache", "the key buffer is reused for the next lookup: the stored key silently changes"),
     M("c12-r3-transient-label", "C12", "C12.R3", LPCS, "\t\t\tinputCounter:   NewLogInputCounter(pcounter.factory.AddOrGetPrefix(\"\", pcounter.metricKeyNames, permKeys)),", "\t\t\tinputCounter:   NewLogInputCounter(pcounter.factory.AddOrGetPrefix(\"\", pcounter.metricKeyNames, tempKeys)),", "label values change when the record buffer is recycled"),
+    M("c12-r6-revert-timezone-key-copy", "C12", "C12.R6", RFC, "\t\t\ttimezoneCache[util.DeepCopyString(tzStr)] = location", "\t\t\ttimezoneCache[tzStr] = location", "lines > 1 KiB (pooled buffers) with zones of equal length: original defect D28", more=[(RFC, "\t\"time\"\n\n\t\"github.com/relex/slog-agent/util\"\n", "\t\"time\"\n")]),
+    M("c12-r6-last-value-memo", "C13", "C12.R6", "transform/tparsetime/tparsetime.go", "\terrorCounter  func(length int)\n}", "\terrorCounter  func(length int)\n\tlastValue     string\n\tlastTime      time.Time\n}", "identical consecutive timestamps in pooled buffers: the memo key is overwritten by the next line", more=[("transform/tparsetime/tparsetime.go", "\tvalue := tf.keyLocator.Get(record.Fields)\n\ttm, err := parseRFC3339Timestamp(value, tf.timezoneCache)\n", "\tvalue := tf.keyLocator.Get(record.Fields)\n\tif value == tf.lastValue && len(value) > 0 {\n\t\trecord.Timestamp = tf.lastTime\n\t\treturn base.PASS\n\t}\n\ttm, err := parseRFC3339Timestamp(value, tf.timezoneCache)\n\tif err == nil {\n\t\ttf.lastValue, tf.lastTime = value, tm\n\t}\n")]),
+    B("c12-r6-benign-last-value-memo-copied", "C12", "transform/tparsetime/tparsetime.go", "\terrorCounter  func(length int)\n}", "\terrorCounter  func(length int)\n\tlastValue     string\n\tlastTime      time.Time\n}", more=[("transform/tparsetime/tparsetime.go", "\tvalue := tf.keyLocator.Get(record.Fields)\n\ttm, err := parseRFC3339Timestamp(value, tf.timezoneCache)\n", "\tvalue := tf.keyLocator.Get(record.Fields)\n\tif value == tf.lastValue && len(value) > 0 {\n\t\trecord.Timestamp = tf.lastTime\n\t\treturn base.PASS\n\t}\n\ttm, err := parseRFC3339Timestamp(value, tf.timezoneCache)\n\tif err == nil {\n\t\ttf.lastValue, tf.lastTime = strings.Clone(value), tm\n\t}\n"), ("transform/tparsetime/tparsetime.go", "import (\n\t\"fmt\"\n", "import (\n\t\"fmt\"\n\t\"strings\"\n")]),
+    M("c12-r4-template-result-aliases-buffer", "C12", "C12.R4", STPL, "\treturn util.DeepCopyStringFromBytes(buf), buf[:0]\n", "\treturn util.StringFromBytes(buf), buf[:0]\n", "addFields with a multi-part template in an input's extractions: two records of one batch share the value"),
+    M("c12-r7-template-result-aliases-buffer", "C12", "C12.R7", STPL, "\treturn util.DeepCopyStringFromBytes(buf), buf[:0]\n", "\treturn util.StringFromBytes(buf), buf[:0]\n", "same change, seen from the record side: the field stored by addFields is backed by the transform's buffer"),
+    M("c12-r7-unsafe-in-transform", "C12", "C12.R7", "transform/tunescape/tunescape.go", "import (\n", "import (\n\t\"unsafe\"\n", "a private bytes-to-string alias invisible to the aliasing rules", more=[("transform/tunescape/tunescape.go", "var unescaper = bsupport.NewSyslogUnescaper()\n", "var unescaper = bsupport.NewSyslogUnescaper()\n\nvar _ = unsafe.Sizeof(0)\n")]),
+    B("c12-r7-benign-in-place-rewrite", "C12", "transform/ttruncate/ttruncate.go", "\t\ttf.keyLocator.Set(record.Fields, util.StringFromBytes(valueOverwritten))", "\t\tnewValue := util.StringFromBytes(valueOverwritten)\n\t\ttf.keyLocator.Set(record.Fields, newValue)"),
+    M("c07-r3-cut-after-clean", "C07", "C07.R3", LPCS, "\t\t\tpermKeys[i] = strings.ToValidUTF8(key, \"\\uFFFD\")\n", "\t\t\tpermKeys[i] = strings.ToValidUTF8(key, \"\\uFFFD\")\n\t\t\tif len(permKeys[i]) > 256 {\n\t\t\t\tpermKeys[i] = permKeys[i][:256]\n\t\t\t}\n", "a key value over 256 bytes with a multi-byte sequence across offset 256"),
+    B("c07-r3-benign-cut-before-clean", "C07", LPCS, "\t\t\tpermKeys[i] = strings.ToValidUTF8(key, \"\\uFFFD\")\n", "\t\t\tif len(key) > 256 {\n\t\t\t\tkey = key[:256]\n\t\t\t}\n\t\t\tpermKeys[i] = strings.ToValidUTF8(key, \"\\uFFFD\")\n"),
+    M("c06-r6-lowercase-keys-for-id", "C06", "C06.R6", LCM, "\tgm.globalMutex.Lock()\n\tobj, found := gm.globalMap[mergedKey]\n", "\tfor i, k := range keys {\n\t\tkeys[i] = strings.ToLower(k)\n\t}\n\tgm.globalMutex.Lock()\n\tobj, found := gm.globalMap[mergedKey]\n", "key values differing only in case: routed to two pipelines, one tag and one queue directory", more=[(LCM, "import (\n\t\"strconv\"\n", "import (\n\t\"strconv\"\n\t\"strings\"\n")]),
+    B("c06-r6-benign-read-only-loop", "C06", ORC, "\toutputTag := o.tagBuilder.Build(keys)\n", "\tfor i, key := range keys {\n\t\tif len(key) == 0 {\n\t\t\to.logger.Debugf(\"empty key value at %d\", i)\n\t\t}\n\t}\n\toutputTag := o.tagBuilder.Build(keys)\n"),
     M("c12-r5-revert-rewriter-flag", "C12", "C10.R4", RUNESC, "\t// The record must not be marked as unescaped here: only the output is unescaped, not the field in the record,\n\t// which is to be serialized again for other outputs\n", "\trecord.Unescaped = true\n", "two outputs with an unescape rewriter: original defect D24"),
 ]
 
 MLR = "input/tcplistener/multilinereader.go"
 SPARSE = "input/syslogparser/syslogparser.go"
-RFC = "transform/tparsetime/rfc3339.go"
 SEX = "transform/textractspecial/stringextractor.go"
 ESER = "output/fluentdforward/eventserializer.go"
 REDACT = "transform/tredactemail/redactemail.go"
@@ -352,6 +366,9 @@ MUTANTS += [
 QDIRS = "buffer/hybridbuffer/queuedirs.go"
 
 MUTANTS += [
+    M("c01-r8-recovery-in-feeder-goroutine", "C05", "C01.R8", BUF, "\tbuf.recoverExistingChunks()\n\tgo buf.feeder.Run()\n", "\tgo func() {\n\t\tbuf.recoverExistingChunks()\n\t\tbuf.feeder.Run()\n\t}()\n", "restart with a backlog while clients reconnect at once: new chunks overtake recovered ones"),
+    M("c01-r8-recovery-deferred", "C05", "C01.R8", BUF, "\tbuf.recoverExistingChunks()\n\tgo buf.feeder.Run()\n", "\tdefer buf.recoverExistingChunks()\n\tgo buf.feeder.Run()\n", "feeder starts on an empty queue; harmless alone but recovery no longer precedes the feeder"),
+    B("c01-r8-benign-feeder-in-closure", "C05", BUF, "\tbuf.recoverExistingChunks()\n\tgo buf.feeder.Run()\n", "\tbuf.recoverExistingChunks()\n\tgo func() {\n\t\tbuf.logger.Debug(\"feeder starting\")\n\t\tbuf.feeder.Run()\n\t}()\n"),
     # ---------------- C06
     M("c06-r1-revert-length-prefix-lcm", "C06", "C06.R1", LCM, "\t\ttempMergedKey = strconv.AppendInt(tempMergedKey, int64(len(tkey)), 10)\n\t\ttempMergedKey = append(tempMergedKey, ':')\n\t\ttempMergedKey = append(tempMergedKey, tkey...)", "\t\t_ = strconv.AppendInt\n\t\ttempMergedKey = append(tempMergedKey, tkey...)", "key tuples ('ab','c') and ('a','bc')"),
     M("c06-r1-revert-length-prefix-metrics", "C06", "C06.R1", LPCS, "\t\ttempMergedKey = strconv.AppendInt(tempMergedKey, int64(len(tkey)), 10)\n\t\ttempMergedKey = append(tempMergedKey, ':')\n\t\ttempMergedKey = append(tempMergedKey, tkey...)", "\t\t_ = strconv.AppendInt\n\t\ttempMergedKey = append(tempMergedKey, tkey...)", "metric key tuples ('ab','c') and ('a','bc')"),
